@@ -352,6 +352,15 @@ CLAIMED = {
              "wild and RUN; the same programs linked by GNU ld validate the harness.",
         technique="Coq proof (linear arithmetic over all layouts and loader choices) + self-checking generated programs linked by wild and executed, GNU ld as harness oracle",
         design_ref="DESIGN.md §3 C01"),
+    "C34": dict(
+        text="S1: linker-diff's comparison rule for one relocation: in each binary the address the reference resolves to, relative to the address the relocation's original symbol has in that "
+             "binary; a site is reported when the relative positions differ. Theorems: nothing is reported for a binary against itself (hence a byte-identical copy), nor whenever every "
+             "reference keeps its relative position under two layouts; redirecting one reference to any other address is reported, and exactly the sites of that reference are.",
+        note="Partial: instruction decoding, relaxation matching and the other differs (sections, segments, symbols, eh_frame, versions) are not modelled. Tie: generated programs linked by "
+             "wild (static, static PIE); the real linker-diff must exit 0 with `No differences` on itself and on an identical copy, and must report a copy with one rel32/abs64/abs32 field "
+             "repointed, naming that relocation; the Coq `report` on the addresses read back from both files must name the same site.",
+        technique="Coq proof (per-site comparison rule) + the real tool run on identical and on single-site-corrupted binaries",
+        design_ref="DESIGN.md §3 C34"),
     "C10": dict(
         text="S1: Gallina model of what wild writes for unwinding (an FDE is kept iff the section its pc-begin points into was loaded and is not empty; one search-table entry per kept FDE with "
              "hdr-relative signed start and FDE pointer; the table sorted by the signed start) and of the consumer (the last entry with start <= pc, then the range check — what libgcc's binary "
